@@ -342,11 +342,12 @@ impl Check for C13Spelling {
 /// every alias of every function x `per` generated argument tuples
 pub fn run_aliases(ctx: &mut Ctx) {
     let per: u64 = ctx.tier.pick(40, 600);
-    let pairs: Vec<(&'static str, &'static str)> = FTAB.iter().filter(|d| !IMPURE.contains(&d.name)).flat_map(|d| d.aliases.iter().map(move |a| (d.name, *a))).collect();
+    // every alias, and every canonical name as its own "alias" (for the sugar form only)
+    let pairs: Vec<(&'static str, &'static str)> = FTAB.iter().filter(|d| !IMPURE.contains(&d.name)).flat_map(|d| std::iter::once((d.name, d.name)).chain(d.aliases.iter().map(move |a| (d.name, *a)))).collect();
     let seed = ctx.seed;
     let total = pairs.len() as u64 * per;
     let npairs = pairs.len();
-    run_enum(ctx, "C13.aliases", total, &format!("all {} aliases of the pure functions x {} generated argument tuples each", npairs, per), move |idx| {
+    run_enum(ctx, "C13.aliases", total, &format!("all {} names and aliases of the pure functions x {} generated argument tuples each, written (alias x ..) and, with `.` as first argument, (.alias ..)", npairs, per), move |idx| {
         let (f, alias) = pairs[(idx % npairs as u64) as usize];
         let k = idx / npairs as u64;
         // tape from a splitmix stream keyed by (seed, f, k): deterministic, independent of sharding
@@ -355,13 +356,31 @@ pub fn run_aliases(ctx: &mut Ctx) {
         let mut g = Gen::new(&tape, GenCfg { ill: 1, exclude: vec!["exec", "trigger", "now", "env"], ..GenCfg::default() });
         let ss = sigs_of(f);
         let si = ss[g.tape.below(ss.len())];
-        let e = g.call_sig(si, Any, 2, &Env::top());
-        let records: Vec<String> = (0..2).map(|_| g.record()).collect();
+        let mut e = g.call_sig(si, Any, 2, &Env::top());
+        let mut records: Vec<String> = (0..2).map(|_| g.record()).collect();
+        // odd k, or a canonical name: the sugar form. The first argument becomes `.`; when it was
+        // a literal, that literal is the input, so the call still does what it did
+        let sugar = alias == f || k % 2 == 1;
+        let special = matches!(f, "set" | "define" | ":" | "@");
+        if sugar && !special {
+            if let Expr::Call { args, .. } = &mut e {
+                if !args.is_empty() {
+                    if let Expr::Lit(t) = &args[0] {
+                        records = vec![t.clone(), t.clone()];
+                    }
+                    args[0] = Expr::dot();
+                }
+            }
+        }
         let t1 = canon(&e);
-        let t2 = format!("({}{}", alias, &t1[1 + f.len()..]);
+        let t2 = if sugar && !special && t1.starts_with(&format!("({} .", f)) { format!("(.{}{}", alias, &t1[3 + f.len()..]) } else { format!("({}{}", alias, &t1[1 + f.len()..]) };
+        if t1 == t2 {
+            let case = json!({"f": f, "alias": alias, "canonical": t1});
+            return (Box::new(move || case.clone()), CaseResult::Pass(Info::new(false).class("same_text")));
+        }
         let res = match compare_spellings(&e, &t1, &t2, &records) {
             Err(m) => CaseResult::Fail(m),
-            Ok((some, _)) => CaseResult::Pass(Info::new(some).obs(json!({"canonical": t1, "alias": t2}))),
+            Ok((some, _)) => CaseResult::Pass(Info::new(some).class_if(t2.starts_with("(."), "sugar_form").obs(json!({"canonical": t1, "alias": t2}))),
         };
         let case = json!({"f": f, "alias": alias, "canonical": t1, "variant": t2, "records": records});
         (Box::new(move || case.clone()), res)
@@ -379,8 +398,14 @@ pub struct CaseCache {
 
 // near-duplicates on purpose: a cache that normalises, truncates or hashes its key badly
 // (trimmed, case-folded, prefix- or length-keyed) must be visible
-const PATTERNS: &[&str] = &["a ", " a", "A", "ba", "a+ ", "^a ", "aaaaaaaaaaaaaaaab", "aaaaaaaaaaaaaaaac", "(?i)a", "a", "a+", "[a-c]+", "(a|b)c", "^a", "b$", "([0-9]+)-([a-z]+)", ".", "", "a*", "\\d+", "(?i)A", "(a)(b)?", "[0-9", "(", "\u{e9}+", "(x)|(y)", "^$", "aa", "[^a]", "*", "b", "c", "ab"];
-const SUBJECTS: &[&str] = &["a ", " a", "ba", "aaaaaaaaaaaaaaaab", "aaaaaaaaaaaaaaaac", "a", "b", "abc", "aaa", "12-ab", "", "A", "\u{e9}\u{e9}", "bc", "xyz", "ab", "c", "x", "y", "7-z 8-q"];
+const PATTERNS: &[&str] = &["a ", " a", "A", "ba", "a+ ", "^a ", "aaaaaaaaaaaaaaaab", "aaaaaaaaaaaaaaaac", "(?i)a", "a", "a+", "[a-c]+", "(a|b)c", "^a", "b$", "([0-9]+)-([a-z]+)", ".", "", "a*", "\\d+", "(?i)A", "(a)(b)?", "[0-9", "(", "\u{e9}+", "(x)|(y)", "^$", "aa", "[^a]", "*", "b", "c", "ab",
+    "(\\d{1,3}\\.){3}\\d{1,3}", "(?x) a  b ", "(?s)a.b", "(?m)^b$", "(?U)a+", "\\bab\\b",
+];
+// large compiled programs (Unicode classes under a bounded repeat, 1-8 MiB): a cache that builds
+// its regexes with other limits or options than the uncached path shows here. Compiling them
+// takes milliseconds, so they appear in one case in twenty-five, with at most eight pairs.
+const HEAVY_PATTERNS: &[&str] = &["^\\w{64}$", "\\p{L}{100}", "[\\w\\s]{80,}", "(?i)\\w{40}x"];
+const SUBJECTS: &[&str] = &["a ", " a", "ba", "aaaaaaaaaaaaaaaab", "aaaaaaaaaaaaaaaac", "a", "b", "abc", "aaa", "12-ab", "", "A", "\u{e9}\u{e9}", "bc", "xyz", "ab", "c", "x", "y", "7-z 8-q", "abcdefghijklmnopqrstuvwxyzabcdefghijklmnopqrstuvwxyzabcdefghijkl", "\u{e9}\u{e9}\u{e9}\u{e9}\u{e9}\u{e9}\u{e9}\u{e9}\u{e9}\u{e9}\u{e9}\u{e9}\u{e9}\u{e9}\u{e9}\u{e9}\u{e9}\u{e9}\u{e9}\u{e9}\u{e9}\u{e9}\u{e9}\u{e9}\u{e9}\u{e9}\u{e9}\u{e9}\u{e9}\u{e9}\u{e9}\u{e9}\u{e9}\u{e9}\u{e9}\u{e9}\u{e9}\u{e9}\u{e9}\u{e9}\u{e9}\u{e9}\u{e9}\u{e9}\u{e9}\u{e9}\u{e9}\u{e9}\u{e9}\u{e9}\u{e9}\u{e9}\u{e9}\u{e9}\u{e9}\u{e9}\u{e9}\u{e9}\u{e9}\u{e9}\u{e9}\u{e9}\u{e9}\u{e9}", "a\nb", "192.168.10.1", "ab ab", "AB"];
 
 pub struct C13Cache;
 impl Check for C13Cache {
@@ -393,8 +418,15 @@ impl Check for C13Cache {
     }
     fn strategy(&self, _t: Tier) -> BoxedStrategy<CaseCache> {
         // a small per-case pattern pool so that patterns repeat, alternate and get evicted
-        (vec(0..PATTERNS.len(), 1..6), vec((any::<u16>(), 0..SUBJECTS.len()), 0..40), 0usize..4)
-            .prop_map(|(pool, seq, group)| CaseCache { pairs: seq.into_iter().map(|(p, s)| (SUBJECTS[s].to_string(), PATTERNS[pool[pick_idx(p, pool.len())]].to_string())).collect(), group })
+        (vec(0..PATTERNS.len(), 1..6), vec((any::<u16>(), 0..SUBJECTS.len()), 0..40), 0usize..4, 0usize..25, 0..HEAVY_PATTERNS.len())
+            .prop_map(|(pool, mut seq, group, heavy, which)| {
+                let mut pats: Vec<&str> = pool.iter().map(|i| PATTERNS[*i]).collect();
+                if heavy == 0 {
+                    pats.push(HEAVY_PATTERNS[which]);
+                    seq.truncate(8);
+                }
+                CaseCache { pairs: seq.into_iter().map(|(p, s)| (SUBJECTS[s].to_string(), pats[pick_idx(p, pats.len())].to_string())).collect(), group }
+            })
             .boxed()
     }
     fn check(&self, c: &CaseCache) -> CaseResult {
